@@ -1,6 +1,7 @@
 // C10 harness: runs the real XSLT engine in-process (set-up copied from src/xalanc/TestXSLT/process.cpp) so that
 // XSLTEngineImpl::setQuietConflictWarnings can be chosen per request, and exposes XPath::getTargetData.
 //
+//   every reply is prefixed with "@@ "
 //   run <quiet 0|1> <stylesheet path> <source path>   -> "OK <nWarnings> <result, newlines removed>" | "ERR <message>"
 //   targets <prefix=uri,...|-> <pattern, hex UTF-8>    -> "<string>/<score>/<type> ..." | "ERR <message>"
 #include <xalanc/Include/PlatformDefinitions.hpp>
@@ -251,6 +252,9 @@ int main()
             std::istringstream is(line);
             std::string cmd;
             is >> cmd;
+            // every reply line starts with "@@ " so that anything the library itself prints to stdout cannot be
+            // mistaken for a reply
+            std::cout << "@@ ";
             if (cmd == "run")
             {
                 int q;
